@@ -256,11 +256,30 @@ func (u *PacketUnderlay) RunEventLoop(ctx context.Context) error {
 				}
 				continue
 			}
+			if !segmentUserMatchesSession(session.(*Session), seg) {
+				log.Debugf("%v dropped a segment for session %d that was authenticated as a different user", u, das.sessionID)
+				continue
+			}
 			u.deliverSegmentToSession(session.(*Session), seg)
 		} else {
 			log.Debugf("Ignore unknown protocol %d", seg.metadata.Protocol())
 		}
 	}
+}
+
+// segmentUserMatchesSession returns false if the segment was authenticated with
+// the credential of a user other than the owner of the session. Such a segment
+// must not be delivered: any registered user could otherwise interfere with, or
+// crash, the sessions of other users by naming their session ID.
+func segmentUserMatchesSession(s *Session, seg *segment) bool {
+	if seg.block == nil {
+		return true
+	}
+	sessionBlock := s.block.Load()
+	if sessionBlock == nil {
+		return true
+	}
+	return (*sessionBlock).BlockContext().UserName == seg.block.BlockContext().UserName
 }
 
 func (u *PacketUnderlay) onOpenSessionRequest(seg *segment, remoteAddr net.Addr) error {
@@ -332,6 +351,9 @@ func (u *PacketUnderlay) onCloseSession(seg *segment) error {
 		return nil
 	}
 	s := session.(*Session)
+	if !segmentUserMatchesSession(s, seg) {
+		return fmt.Errorf("segment for session %d was authenticated as a different user", sessionID)
+	}
 	if !u.deliverSegmentToSession(s, seg) && log.IsLevelEnabled(log.TraceLevel) {
 		log.Tracef("%v ignored closeSessionRequest or closeSessionResponse segment for closed session %d", u, sessionID)
 	}
